@@ -1,5 +1,4 @@
 """C06 - copies are equal and fully independent; attached landmarks are owned copies."""
-import copy as _pycopy
 from collections import OrderedDict
 from functools import partial
 
@@ -455,6 +454,15 @@ def _memo(path):
     return path.startswith("._iab[")
 
 
+def sig_path(cls, path):
+    """Root-cause key of an aliasing finding: the attribute of the copied object that is shared (one bucket for
+    everything below a Landmarkable's landmark manager, whose copy is LandmarkManager.copy's business)."""
+    comps = [c for c in rs.strip_keys(path).split(".") if c]
+    if comps and comps[0] == "_landmarks":
+        return "landmarks:" + ".".join(comps[1:2])
+    return "%s:%s" % (cls, ".".join(comps[:1]))
+
+
 def c_object(case, ctx):
     fam = case["fam"]
     o = build_object(case)
@@ -470,7 +478,7 @@ def c_object(case, ctx):
     ctx.expect(type(c) is type(o), "copy.class:" + cls, lambda: type(c).__name__)
     sd = rs.nstate_diff(o, c)
     if sd is not None:
-        ctx.fail("copy.state_differs:%s:%s" % (cls, rs.strip_keys(sd).split(": ")[0].split(" missing")[0]), sd)
+        ctx.fail("copy.state_differs:" + sig_path(cls, rs.strip_keys(sd).split(": ")[0].split(" missing")[0]), sd)
     dd = rs.ndiff(d_o, rs.ndigest(o))
     ctx.expect(dd is None, "copy.mutated_original:" + cls, lambda: repr(dd))
     if fam == "lazy":
@@ -481,10 +489,10 @@ def c_object(case, ctx):
             ctx.event("shared memo cache (CachedPWA._iab)")
             continue
         if not rs.sharing_allowed(pa, pb):
-            ctx.fail("copy.shares_buffer:%s:%s" % (cls, rs.strip_keys(pa)), "original%s and copy%s share memory" % (pa, pb))
+            ctx.fail("copy.shares_buffer:" + sig_path(cls, pa), "original%s and copy%s share memory" % (pa, pb))
     for pa, pb in shared_containers(o, c):
         if not rs.sharing_allowed(pa, pb):
-            ctx.fail("copy.shares_container:%s:%s" % (cls, rs.strip_keys(pa)), "original%s and copy%s are the same %s object" % (pa, pb, type(o).__name__))
+            ctx.fail("copy.shares_container:" + sig_path(cls, pa), "original%s and copy%s are the same %s object" % (pa, pb, type(o).__name__))
     n_bufs = len([1 for p, b in digest.buffers(o) if b.size])
     # 3. behavioural independence
     side = case["side"]
@@ -498,7 +506,7 @@ def c_object(case, ctx):
         rs.poke(b)
         dd = rs.ndiff(d_y, rs.ndigest(y))
         if dd is not None:
-            ctx.fail("write.visible_in_other:%s:%s" % (cls, rs.strip_keys(p)), "wrote into %s%s; the %s changed at %r" % (side, p, "copy" if side == "orig" else "original", dd))
+            ctx.fail("write.visible_in_other:" + sig_path(cls, p), "wrote into %s%s; the %s changed at %r" % (side, p, "copy" if side == "orig" else "original", dd))
     # public mutators on a second, freshly built pair (the sentinel above may have corrupted the probed side)
     o2 = build_object(case)
     c2 = o2.copy()
@@ -516,6 +524,11 @@ def c_object(case, ctx):
             if dd is not None:
                 ctx.fail("mutator.visible_in_other:%s:%s" % (cls, name), "%s on the %s changed the %s at %r" % (name, side, "copy" if side == "orig" else "original", dd))
                 break
+    if ran and not ctx.fails:
+        # the mutated object must not have picked up memory of the other one either
+        for pa, pb in digest.shared_buffers(x, y):
+            if not (rs.sharing_allowed(pa, pb) or (_memo(pa) and _memo(pb))):
+                ctx.fail("mutator.created_sharing:" + sig_path(cls, pa), "after the mutators %s%s and other%s share memory" % (side, pa, pb))
     ctx.nontrivial(n_bufs >= 2 or ran)
 
 
